@@ -130,6 +130,9 @@ def run(props=None, only=None, jobs=12):
                 if not expected or (props and not (set(expected) & set(props))):
                     continue
                 work.append((tmp, base, "breaking", name, expected, pp, props))
+                silent = [q for q in (meta.get("must_stay_silent") or []) if not props or q in props]
+                if silent:
+                    work.append((tmp, base, "preserving", name + "-silent", None, pp, silent))
         for name, edits in mutants.PRESERVING:
             if only and only not in name:
                 continue
